@@ -117,6 +117,8 @@ pub struct DevInner {
     /// a seek hit by a fault still moves the position before it reports the error (a layered destination whose
     /// lower layer has already moved)
     pub seek_moves_on_fault: bool,
+    /// where a failing seek leaves the position (std::io::Seek leaves it unspecified); None: see above
+    pub seek_lands_on_fault: Option<u64>,
 }
 
 #[derive(Clone)]
@@ -144,6 +146,7 @@ impl Dev {
             zero_write_on_fault: false,
             fault_calls: vec![],
             seek_moves_on_fault: false,
+            seek_lands_on_fault: None,
         })))
     }
     pub fn quiet(data: Vec<u8>) -> Dev {
@@ -187,6 +190,9 @@ impl Dev {
         for i in 0..n {
             self.fail_at(k + i, FaultMode::OneShot);
         }
+    }
+    pub fn set_seek_lands_on_fault(&self, at: Option<u64>) {
+        self.0.borrow_mut().seek_lands_on_fault = at;
     }
     pub fn set_seek_moves_on_fault(&self, on: bool) {
         self.0.borrow_mut().seek_moves_on_fault = on;
@@ -329,7 +335,9 @@ impl Seek for Dev {
     fn seek(&mut self, from: SeekFrom) -> io::Result<u64> {
         let mut d = self.0.borrow_mut();
         if let Err(e) = d.gate("seek") {
-            if d.seek_moves_on_fault {
+            if let Some(at) = d.seek_lands_on_fault {
+                d.pos = at;
+            } else if d.seek_moves_on_fault {
                 let new = match from {
                     SeekFrom::Start(n) => n as i128,
                     SeekFrom::End(n) => d.data.len() as i128 + n as i128,
